@@ -173,3 +173,38 @@ fn c10_state_is_check_contract() {
     assert!(state.is_check() == (king & attacked != 0));
     kani::cover!(state.is_check(), "check reachable");
 }
+
+// ---- loop-free, complete: check detection on top of the attacked-set contract -----------------------------------------
+
+static mut ATTACKED: [u64; 4] = [0; 4]; // attacked set of White, of Black
+
+fn stub_colored_attacks(_b: &Board, c: Color) -> BitBoard {
+    BitBoard::new(unsafe { ATTACKED[color_u8(c) as usize] })
+}
+
+/// Board::is_check(c) <=> a king of colour c stands on a square in colored_attacks(!c); State::is_check is that for the
+/// side to move.  The attacked sets are arbitrary (contract of colored_attacks), the position is fully symbolic, and
+/// there is no loop: this obligation is complete.
+#[kani::proof]
+#[kani::stub(crate::board::Board::colored_attacks, stub_colored_attacks)]
+fn c10_is_check_contract() {
+    unsafe {
+        ATTACKED = kani::any();
+    }
+    let p: [u64; 16] = kani::any();
+    kani::assume(boards_wf_unrolled(&p));
+    let board = board_from(&p);
+    let c = any_color();
+    let attacked_by_opponent = unsafe { ATTACKED[color_u8(!c) as usize] };
+    assert!(board.is_check(c) == (p[pidx(c, Piece::King)] & attacked_by_opponent != 0));
+    let state = crate::State::new(
+        board_from(&p),
+        c,
+        any_rights(),
+        any_opt_square(),
+        crate::Clock { halfmove_clock: kani::any(), fullmove_number: kani::any() },
+    );
+    assert!(state.is_check() == board.is_check(c));
+    kani::cover!(board.is_check(c), "check reachable");
+    kani::cover!(!board.is_check(c) && p[pidx(c, Piece::King)] != 0, "no check reachable");
+}
